@@ -294,16 +294,45 @@ for _po, _free in (([0], f'{_A}.bitmap[k] == BitmapValue.FREE'),
                       ('fresh_list_a', f'r.bitmap is not {_A}.bitmap'), ('fresh_list_b', f'r.bitmap is not {_B}.bitmap')],
              use_at_calls=False, modifies=[])
 
-# ---- ASSUMED (sorting of dicts by lambda keys with None/inf handling): for a one-entry request the order is trivial.
-# Checked natively, exhaustively on small inputs, in bounded/order_slots.py (the general permutation contract too).
-contract('gnpy.core.utils.order_slots', trusted=True, props=[],
+# ---- order_slots / restore_order: proved for one-entry and two-entry requests (sorting of dicts by lambda keys with None/inf
+# handling is executed symbolically on lists of concrete length); the call sites of compute_n_m use the one-entry contract,
+# whose `returns` expression is exactly its `verbatim` / `kept_unless_none` clause.  The general permutation contract is
+# checked natively, exhaustively on small inputs, in bounded/order_slots.py.
+contract('gnpy.core.utils.order_slots', name='gnpy.core.utils.order_slots[one entry]', props=['C14'],
          params={'slots': lst(dct(N=opt(integer()), M=opt(integer())))},
-         ensures=[], returns=expr("([slots[0]['N']], [slots[0]['M']], [0])"),
-         note='ASSUMED for one-entry requests: order_slots([{N: n, M: m}]) == ([n], [m], [0]); bounded check')
-contract('gnpy.core.utils.restore_order', trusted=True, props=[],
+         requires=[('one_entry', 'len(slots) == 1')],
+         ensures=[('verbatim', "len(result[0]) == 1 and len(result[1]) == 1 and len(result[2]) == 1 and result[0][0] == slots[0]['N'] "
+                               "and result[1][0] == slots[0]['M'] and result[2][0] == 0")],
+         returns=expr("([slots[0]['N']], [slots[0]['M']], [0])"), pure=True, modifies=[])
+contract('gnpy.core.utils.restore_order', name='gnpy.core.utils.restore_order[one entry]', props=['C14'],
          params={'elements': lst(opt(integer())), 'order': lst(integer())},
-         ensures=[], returns=expr('[e for e in elements if e is not None]'),
-         note='ASSUMED for one-entry requests: restore_order([e], [0]) == [e] if e is not None else []; bounded check')
+         requires=[('one_entry', 'len(elements) == 1 and len(order) == 1')],
+         ensures=[('kept_unless_none', 'implies(elements[0] is None, len(result) == 0) and '
+                                       'implies(elements[0] is not None, len(result) == 1 and result[0] == elements[0])')],
+         returns=expr('[e for e in elements if e is not None]'), pure=True, modifies=[])
+_SLOT = lambda: dct(N=opt(integer()), M=opt(integer()))
+contract('gnpy.core.utils.order_slots', name='gnpy.core.utils.order_slots[two entries]', props=['C14'],
+         params={'slots': lst(_SLOT(), _SLOT())},
+         let={'i0': 'result[2][0]', 'i1': 'result[2][1]'},
+         ensures=[('a_permutation', '(i0 == 0 and i1 == 1) or (i0 == 1 and i1 == 0)'),
+                  ('entries_follow_their_index', "result[0][0] == slots[i0]['N'] and result[1][0] == slots[i0]['M'] and "
+                                                 "result[0][1] == slots[i1]['N'] and result[1][1] == slots[i1]['M']"),
+                  # widest first, entries without M last (they take what is left)
+                  ('wider_first_unset_last', 'implies(result[1][1] is not None, result[1][0] is not None and result[1][0] >= result[1][1])'),
+                  ('input_untouched', "slots[0]['N'] == old(slots[0]['N']) and slots[1]['M'] == old(slots[1]['M']) and len(slots[0]) == 2")],
+         use_at_calls=False, modifies=[])
+H_ORDER = '''
+def order_roundtrip(slots):
+    n, m, order = order_slots(slots)
+    return restore_order(n, order), restore_order(m, order)
+'''
+contract('harness:order_roundtrip', harness=H_ORDER, module='gnpy.core.utils', props=['C14'],
+         params={'slots': lst(dct(N=integer(), M=integer()), dct(N=integer(), M=integer()))},
+         inline_callees=['gnpy.core.utils.order_slots', 'gnpy.core.utils.restore_order'],
+         # the labels reported to the user come back in the order of the request
+         ensures=[('restore_inverts_order', "result[0][0] == slots[0]['N'] and result[0][1] == slots[1]['N'] and "
+                                            "result[1][0] == slots[0]['M'] and result[1][1] == slots[1]['M'] and len(result[0]) == 2")],
+         modifies=[])
 
 RQ1 = obj('<ns>', N=lst(opt(integer())), M=lst(opt(integer())), request_id=string())
 for (_po, _oms), _pol in [(x, y) for x in (([0], [_A]), ([0, 1], [_A, _B])) for y in ('first_fit', 'last_fit')]:
